@@ -50,14 +50,7 @@ fn main() {
             let case = j.get("case").cloned().unwrap_or_else(|| machinery("replay file has no case"));
             smlmc::e1::VERBOSE.store(true, std::sync::atomic::Ordering::Relaxed);
             let class = j.get("class").and_then(|c| c.as_str()).unwrap_or("").to_string();
-            let vs = match case.get("engine").and_then(|e| e.as_str()) {
-                Some("e2") => smlmc::e2::replay(&case),
-                Some("e1") => smlmc::e1::replay(&case),
-                Some("e4") => smlmc::e4::replay(&case),
-                Some("e5") => smlmc::e5::replay(&case),
-                Some("e3") => smlmc::e3::replay(&case),
-                _ => machinery("unknown engine in replay file"),
-            };
+            let vs = smlmc::replay_case(&case);
             println!("replaying {} (recorded class: {})", path, class);
             for v in &vs {
                 println!("  [{}] {} :: {}", v.class, v.key, v.what);
